@@ -1229,8 +1229,11 @@ class RTCSctpTransport(AsyncIOEventEmitter):
         for stream_id, stream_seq in chunk.streams:
             inbound_stream = self._get_inbound_stream(stream_id)
 
-            # advance sequence number and perform delivery
-            inbound_stream.sequence_number = uint16_add(stream_seq, 1)
+            # advance sequence number and perform delivery; the messages up to
+            # stream_seq may already have been delivered, never move backwards
+            next_seq = uint16_add(stream_seq, 1)
+            if uint16_gt(next_seq, inbound_stream.sequence_number):
+                inbound_stream.sequence_number = next_seq
             for message in inbound_stream.pop_messages():
                 self._advertised_rwnd += len(message[2])
                 await self._receive(*message)
